@@ -6,6 +6,8 @@ use std::ops::RangeInclusive;
 use vstd::std_specs::bits::*;
 verus! {
 
+global size_of usize == 8; // assumption: 64-bit target
+
 pub type TokenId = u32;
 //@@ const toktrie/src/svob.rs BITS
 
